@@ -176,7 +176,11 @@ class _OneofRun:
             self.groups.setdefault(mem.group, []).append(mem)
         # up to two live objects: after a restart-by-copy the source object stays alive as a sibling
         # with its own model, so that a copy and its original are observed independently
-        self.live: List[Dict[str, Any]] = [dict(m=None, sel={g: None for g in self.groups}, val={})]
+        self.nested_groups: Dict[str, List[Member]] = {}
+        for mem in ONEOFS_MEMBERS:
+            self.nested_groups.setdefault(mem.group, []).append(mem)
+        self.live: List[Dict[str, Any]] = [dict(m=None, sel={g: None for g in self.groups}, val={},
+                                                nested=self._fresh_nested())]
         self.cur = 0
         self.steps = 0
 
@@ -185,9 +189,16 @@ class _OneofRun:
     val = property(lambda self: self.live[self.cur]["val"], lambda self, v: self.live[self.cur].__setitem__("val", v))
 
     # ---- model helpers ----------------------------------------------------------------------
+    def _fresh_nested(self):
+        """Model of the oneof groups of the nested message Sink.o (None: not tracked, e.g. shared by a shallow copy)."""
+        if self.cls is not Sink:
+            return None
+        return dict(sel={g: None for g in self.nested_groups}, val={})
+
     def _reset(self):
         self.sel = {g: None for g in self.groups}
         self.val = {}
+        self.live[self.cur]["nested"] = self._fresh_nested()
 
     def _select(self, mem: Member, value):
         self.sel[mem.group] = mem.name
@@ -204,7 +215,18 @@ class _OneofRun:
         out = []
         seen_msg = set()
         for _ in range(t.draw(6, "n_occ")):
-            kind = t.weighted([5, 2, 2], "occ-kind")
+            kind = t.weighted([5, 2, 2, 1], "occ-kind")
+            if kind == 3:
+                # the NUMBER of a member under a wire type its declared type cannot have: not an occurrence of the
+                # member (C17: kept as an unknown field) - it selects nothing and deselects nothing
+                mem = t.choice(self.members, "mismatch-member")
+                fits = mem.variants[0][1][0] & 7
+                wt = t.choice([w for w in (wire.VARINT, wire.I64, wire.LEN, wire.I32) if w != fits], "mismatch-wt")
+                pay = {wire.VARINT: b"\x05", wire.I64: b"\x01" + b"\x00" * 7, wire.LEN: b"\x03abc",
+                       wire.I32: b"\x02\x00\x00\x00"}[wt]
+                out.append(("u", wire.tag(mem.number, wt) + pay))
+                self.stats["probe:member-number-under-a-non-fitting-wire-type"] += 1
+                continue
             if kind == 0:
                 mem, k = self._draw_member_variant("occ-member")
                 if isinstance(mem.variants[0][0](), betterproto.Message):
@@ -267,6 +289,20 @@ class _OneofRun:
         if k == 0:
             self.stats["probe:member-assigned-its-default-value"] += 1
         return f"set {mem.name}=#{k}"
+
+    def op_nested_set(self):
+        """Assign a oneof member of the NESTED message Sink.o in place (through whichever live object is current):
+        a deep copy / unpickled copy and its original must not see each other's nested selections."""
+        nm = self.live[self.cur]["nested"]
+        if nm is None:
+            return self.op_set_member()
+        mem = self.tape.choice(ONEOFS_MEMBERS, "nested-member")
+        k = self.tape.draw(len(mem.variants), "variant")
+        setattr(self.m.o, mem.name, mem.variants[k][0]())
+        nm["sel"][mem.group] = mem.name
+        nm["val"][mem.name] = mem.variants[k][0]()
+        self.stats["probe:nested-oneof-member-assigned-in-place"] += 1
+        return f"set o.{mem.name}=#{k}"
 
     def op_set_plain(self):
         name, variants = self.tape.choice(self.plain, "plain")
@@ -423,7 +459,18 @@ class _OneofRun:
                 continue
             idx = next((i for i, var in enumerate(mem.variants) if _eqv(var[0](), v)), None)
             model_vals[k] = mem.variants[idx][0]() if idx is not None else copy.deepcopy(v)
-        fork = dict(m=new, sel=dict(src["sel"]), val=model_vals)
+        nested = None
+        if src.get("nested") is not None:
+            if kind == 0:
+                # a shallow copy shares the nested message object (once it exists): stop tracking it on both sides
+                src["nested"] = None
+            else:
+                nested = dict(sel=dict(src["nested"]["sel"]), val={})
+                for k2, v2 in src["nested"]["val"].items():
+                    mem2 = next(mm for mm in ONEOFS_MEMBERS if mm.name == k2)
+                    idx2 = next((i for i, var in enumerate(mem2.variants) if _eqv(var[0](), v2)), 0)
+                    nested["val"][k2] = mem2.variants[idx2][0]()
+        fork = dict(m=new, sel=dict(src["sel"]), val=model_vals, nested=nested)
         self.live = [src, fork]      # the source stays alive; an older sibling is dropped
         self.cur = 1
         self.stats["probe:copy-and-original-both-alive"] += 1
@@ -506,9 +553,18 @@ class _OneofRun:
             self.cur = keep
 
     def _check_one(self, after: str):
-        m = self.m
-        for g, mems in self.groups.items():
-            exp = self.sel[g]
+        self._check_obj(self.m, self.groups, self.sel, self.val, after)
+        nm = self.live[self.cur].get("nested")
+        if nm is not None:
+            try:
+                sub = self.m.o
+            except Exception as e:  # noqa: BLE001
+                raise Violation("C07.O2", f"read-raised-{type(e).__name__}", f"after {after}: reading .o: {e}")
+            self._check_obj(sub, self.nested_groups, nm["sel"], nm["val"], after + " [nested message .o]")
+
+    def _check_obj(self, m, groups, sel, val, after: str):
+        for g, mems in groups.items():
+            exp = sel[g]
             try:
                 name, v = betterproto.which_one_of(m, g)
             except Exception as e:  # noqa: BLE001
@@ -516,8 +572,8 @@ class _OneofRun:
             if (name or None) != exp:
                 raise Violation("C07.O1", "wrong-member",
                                 f"after {after}: which_one_of({g!r}) names {name!r}, the member set last is {exp!r}")
-            if exp is not None and not _eqv(v, self.val[exp]):
-                raise Violation("C07.O1", "wrong-value", f"after {after}: which_one_of({g!r}) = {v!r}, expected {self.val[exp]!r}")
+            if exp is not None and not _eqv(v, val[exp]):
+                raise Violation("C07.O1", "wrong-value", f"after {after}: which_one_of({g!r}) = {v!r}, expected {val[exp]!r}")
             for mem in mems:
                 try:
                     x = getattr(m, mem.name)
@@ -532,22 +588,29 @@ class _OneofRun:
                     raise Violation("C07.O2", "unselected-member-readable",
                                     f"after {after}: group {g} is set to {exp!r} but reading {mem.name} gives {x!r} "
                                     f"instead of raising AttributeError")
-                if not _eqv(x, self.val[exp]):
-                    raise Violation("C07.O2", "wrong-value", f"after {after}: {mem.name} reads {x!r}, expected {self.val[exp]!r}")
+                if not _eqv(x, val[exp]):
+                    raise Violation("C07.O2", "wrong-value", f"after {after}: {mem.name} reads {x!r}, expected {val[exp]!r}")
         try:
             enc = bytes(m)
-            nums = set(wire.field_numbers(enc))
+            seen = {(f.num, f.wt) for f in wire.parse_fields(enc)}
         except Exception as e:  # noqa: BLE001
             raise Violation("C07.O3", f"bytes-raised-{type(e).__name__}", f"after {after}: {e}")
-        for g, mems in self.groups.items():
-            exp = self.sel[g]
+
+        class _Nums:
+            # a member is on the wire when its number occurs under the wire type of its declared type; the same
+            # number under another wire type is an unknown field that was kept (C17), not the member
+            def __contains__(self, mem):
+                return (mem.number, mem.variants[0][1][0] & 7) in seen
+        nums = _Nums()
+        for g, mems in groups.items():
+            exp = sel[g]
             for mem in mems:
-                if mem.name == exp and mem.number not in nums:
+                if mem.name == exp and mem not in nums:
                     raise Violation("C07.O3", "selected-member-not-encoded",
                                     f"after {after}: {mem.name} (#{mem.number}) is selected"
-                                    f"{' with its default value' if _eqv(self.val[exp], mem.variants[0][0]()) else ''} "
+                                    f"{' with its default value' if _eqv(val[exp], mem.variants[0][0]()) else ''} "
                                     f"but missing from the encoding {enc.hex()}")
-                if mem.name != exp and mem.number in nums:
+                if mem.name != exp and mem in nums:
                     raise Violation("C07.O3", "sibling-encoded",
                                     f"after {after}: group {g} is set to {exp!r} but #{mem.number} ({mem.name}) is on the wire: {enc.hex()}")
         for casing, conv in ((betterproto.Casing.CAMEL, _camel), (betterproto.Casing.SNAKE, lambda s: s)):
@@ -555,8 +618,8 @@ class _OneofRun:
                 d = m.to_dict(casing=casing)
             except Exception as e:  # noqa: BLE001
                 raise Violation("C07.O4", f"to_dict-raised-{type(e).__name__}", f"after {after}: {e}")
-            for g, mems in self.groups.items():
-                exp = self.sel[g]
+            for g, mems in groups.items():
+                exp = sel[g]
                 for mem in mems:
                     key = conv(mem.name)
                     if mem.name == exp and key not in d:
@@ -578,9 +641,9 @@ class _OneofRun:
         for _ in range(n_ops - 1):
             if len(self.live) == 2:
                 self.cur = t.draw(2, "target-object")
-            k = t.weighted([2, 5, 2, 4, 3, 3, 2], "op")
+            k = t.weighted([2, 5, 2, 4, 3, 3, 2, 2], "op")
             op = (self.op_construct, self.op_set_member, self.op_set_plain, self.op_parse, self.op_from_dict,
-                  self.op_restart, self.op_faulted_load)[k]
+                  self.op_restart, self.op_faulted_load, self.op_nested_set)[k]
             desc = self._guard(op, op.__name__)
             if k == 6:
                 faulted = True
